@@ -2414,29 +2414,6 @@ class PyCdlib:
 
         self.interchange_level = max(self.interchange_level, ic_level)
 
-        # After we have walked the directories we look to see if all of the
-        # El Torito entries have corresponding directory records.  If not, the
-        # El Torito records may be 'hidden' or 'unlinked', meaning they have no
-        # corresponding directory record in the ISO filesystem.  In order to
-        # accommodate the rest of the system which expects them to have
-        # directory records, we use fake directory records that don't get
-        # written out.
-        #
-        # Note that we specifically do *not* add these to any sort of parent;
-        # that way, we don't run afoul of any checks that adding a child to a
-        # parent might have.  This means that if we do ever want to unhide this
-        # entry, we'll have to do some additional work to give it a real name
-        # and link it to the appropriate parent.
-        if self.eltorito_boot_catalog is not None:
-            self._link_eltorito(extent_to_inode)
-
-            # Now that everything has a dirrecord, see if we have a boot
-            # info table.
-            self._check_for_eltorito_boot_info_table(self.eltorito_boot_catalog.initial_entry.inode)
-            for sec in self.eltorito_boot_catalog.sections:
-                for entry in sec.section_entries:
-                    self._check_for_eltorito_boot_info_table(entry.inode)
-
         # The PVD is finished.  Now look to see if we need to parse the SVD.
         for svd in self.svds:
             if (svd.flags & 0x1) == 0 and svd.escape_sequences[:3] in (b'%/@', b'%/C', b'%/E'):
@@ -2481,6 +2458,32 @@ class PyCdlib:
         if self._has_udf:
             self._parse_udf_descriptors()
             self._walk_udf_directories(extent_to_inode)
+
+        # The El Torito entries are linked last, so that a boot file that has
+        # lost its ISO9660 name but still has a Joliet or UDF one is known with
+        # its real length.
+        # After we have walked the directories we look to see if all of the
+        # El Torito entries have corresponding directory records.  If not, the
+        # El Torito records may be 'hidden' or 'unlinked', meaning they have no
+        # corresponding directory record in the ISO filesystem.  In order to
+        # accommodate the rest of the system which expects them to have
+        # directory records, we use fake directory records that don't get
+        # written out.
+        #
+        # Note that we specifically do *not* add these to any sort of parent;
+        # that way, we don't run afoul of any checks that adding a child to a
+        # parent might have.  This means that if we do ever want to unhide this
+        # entry, we'll have to do some additional work to give it a real name
+        # and link it to the appropriate parent.
+        if self.eltorito_boot_catalog is not None:
+            self._link_eltorito(extent_to_inode)
+
+            # Now that everything has a dirrecord, see if we have a boot
+            # info table.
+            self._check_for_eltorito_boot_info_table(self.eltorito_boot_catalog.initial_entry.inode)
+            for sec in self.eltorito_boot_catalog.sections:
+                for entry in sec.section_entries:
+                    self._check_for_eltorito_boot_info_table(entry.inode)
 
         # Now we look for the 'version' volume descriptor, common on ISOs made
         # with genisoimage or mkisofs.  This volume descriptor doesn't have any
